@@ -429,6 +429,7 @@ pub struct Counters {
     pub probe_runs: u64,
     pub probe_memo_hits: u64,
     pub persist_runs: u64,
+    pub wallet_rollbacks: u64,
 }
 
 /// Options shared by the sweep and by replay.
@@ -462,13 +463,14 @@ pub struct Model<'a> {
     pub counters: RefCell<Counters>,
     template: MigrationState,
     probe_memo: RefCell<HashSet<u128>>,
+    rollback_seen: RefCell<HashSet<u128>>,
     /// MigrationStates (or shape classes) already saved and loaded; shared by the passes of a group.
     pub persist_seen: Option<&'a RefCell<HashSet<u128>>>,
 }
 
 impl<'a> Model<'a> {
     pub fn new(dag: Dag, profile: u8, inits: Vec<u8>, opts: Opts, persist_seen: Option<&'a RefCell<HashSet<u128>>>) -> Self {
-        Model { dag, profile, inits, opts, counters: RefCell::new(Counters::default()), template: initial(dag, profile, 31).0, probe_memo: RefCell::new(HashSet::new()), persist_seen }
+        Model { dag, profile, inits, opts, counters: RefCell::new(Counters::default()), template: initial(dag, profile, 31).0, probe_memo: RefCell::new(HashSet::new()), rollback_seen: RefCell::new(HashSet::new()), persist_seen }
     }
 
     pub fn ms(&self, l: &Live) -> MigrationState {
@@ -809,6 +811,32 @@ impl<'a> Model<'a> {
             }
         };
         check_lifecycle(pre, &post, op, rolled_to)?;
+        if let (Some(h), true) = (rolled_to, self.opts.persist != Persist::Off) {
+            // The same rollback through the real wallet: save the pre-state, truncate the WALLET
+            // that owns the store, load the migration back. One representative per class of
+            // (status, per transaction: lifecycle state and the position of its mined height, mark
+            // and failure report relative to the rollback height, clamped to -2..=+2).
+            let rel = |x: u32| (i64::from(x) - i64::from(h)).clamp(-2, 2);
+            let mut class = format!("{:?}", pre.status());
+            for t in pre.transactions() {
+                class.push_str(&format!(
+                    "|{}{:?}{:?}{:?}",
+                    rank(&t.state()),
+                    t.state().mined_height().map(|m| rel(u32::from(m))),
+                    t.unsatisfiable().map(|(m, k)| (rel(u32::from(m)), k)),
+                    t.broadcast_failure_at().map(|m| rel(u32::from(m)))
+                ));
+            }
+            let fresh = match self.persist_seen {
+                Some(_) => self.rollback_seen.borrow_mut().insert(mc_core::key128(class.as_bytes())),
+                None => true,
+            };
+            if fresh {
+                self.counters.borrow_mut().wallet_rollbacks += 1;
+                let o = super::persist::wallet_rollback_explored(pre, h, FLOOR)?;
+                self.outcome(o);
+            }
+        }
         if let Some(h) = rolled_to {
             let unmined = pre.transactions().iter().filter(|t| t.state().mined_height().is_some_and(|m| u32::from(m) > h)).count();
             self.outcome(if unmined > 0 { "chain:rollback-unmines" } else { "chain:rollback-keeps" });
